@@ -128,6 +128,7 @@ struct GenOpts {
     bool smooth_curves = false;    ///< segmentation engines: 1 array in 12 (size hint >= 60) is a smooth convex / concave curve x_i = A*i + C*i^p tuned to stay
                                    ///< within a fraction of epsilon of a line: the builder's convex hulls then keep (almost) every point
     bool pow2_sizes = false;       ///< 1 array in 30 has exactly 2^k - 1, 2^k or 2^k + 1 keys, k = 10..19 (block-wise copy / chunk arithmetic edges)
+    bool force_bimodal = false;    ///< C19: the bimodal class unconditionally (a large destination object)
     bool ef_bimodal = false;       ///< Elias-Fano: about 1 case in 250: >= 10^5 minimal segments packed into a tiny part of a huge key space (select long-superblock path)
     bool allow_giant = false;      ///< about 1 case in 400: n around / above 2^24 built from <= 300 distinct keys with huge duplicate runs (ranks > 2^24)
     size_t span_multiple_edge = 0; ///< Bucketing: 1/4 of the arrays end so that (last - first) is m*M + d, d in {-1,0,+1}, M = this value
@@ -181,7 +182,7 @@ std::vector<K> gen_keys(TapeReader &t, const GenOpts &o, KeyMeta &meta) {
 
     // ---- "bimodal" class for Elias-Fano: a cluster of g-key groups separated by wildly varying jumps (=> minimal segments) followed by a
     //      sparse tail that makes the universe - and so the bucket width of the code - astronomically larger than the cluster
-    if (o.ef_bimodal && !o.xkeys && sizeof(K) == 8 && !std::is_floating_point_v<K> && o.size_hint >= 96 && t.chance(1, 6)) {
+    if (!o.xkeys && sizeof(K) == 8 && !std::is_floating_point_v<K> && (o.force_bimodal || (o.ef_bimodal && o.size_hint >= 96 && t.chance(1, 6)))) {
         size_t groups = 60000 + t.below(140000);
         size_t g = eps + 1 + t.below(eps + 1); // eps+1 .. 2*eps+1 consecutive keys per group
         size_t tail = 2000 + t.below(40000);
